@@ -83,7 +83,11 @@ class Skeletons:
             l, r = kids(e)
             t = strip(l)
             if t.get("k") == "DeclRefExpr" and t.get("did") not in (declared or ()):
-                act = "%s%s%s" % (self.target(t), e["op"], self.fm.origin(r))
+                ro = self.fm.origin(r)
+                if e["op"] in ("+=", "-=") and ro == "1":
+                    act = "%s%s" % ("++" if e["op"] == "+=" else "--", self.target(t))
+                else:
+                    act = "%s%s%s" % (self.target(t), e["op"], ro)
         if act is not None:
             if not self.counters and act.lstrip("+-").startswith("mutable:"):
                 return []
